@@ -100,6 +100,7 @@ pub fn cfg_strategy(dom: CfgDomain) -> impl Strategy<Value = HybCfg> {
                     indexer_shards: 4,
                     invalid_ratio_picker: irp,
                     hold_io,
+                    probation_pct: 10,
                 }
             },
         )
